@@ -350,7 +350,7 @@ class MvNormalREPARAM(TailCallADEVPrimitive):
         dual_tree: DualTree,
     ):
         (mu_primal, cov_primal) = Dual.tree_primal(dual_tree)
-        (mu_tangent, cov_tangent) = Dual.tree_primal(dual_tree)
+        (mu_tangent, cov_tangent) = Dual.tree_tangent(dual_tree)
         key, sub_key = jax.random.split(key)
 
         eps = tfd.Normal(loc=0.0, scale=1.0).sample(len(mu_primal), seed=sub_key)
